@@ -4,19 +4,23 @@ use std::sync::Arc;
 pub mod c01;
 pub mod c05;
 pub mod c06;
+pub mod c11;
 pub mod c12;
 pub mod c13;
 pub mod c14;
 pub mod c15;
 pub mod c16;
 pub mod c19;
+pub mod c20;
 pub mod c21;
 pub mod c02;
+pub mod c09;
 pub mod c10;
 pub mod c25;
 pub mod c26;
 pub mod c27;
 pub mod c28;
+pub mod c29;
 pub mod c30;
 pub mod c31;
 pub mod c32;
@@ -25,6 +29,7 @@ pub mod c34;
 pub mod c35;
 pub mod c36;
 pub mod c37;
+pub mod c38;
 pub mod c39;
 pub mod c40;
 pub mod c41;
@@ -51,7 +56,11 @@ pub fn registry() -> Vec<Box<dyn DynProp>> {
         Box::new(Adapter(Arc::new(conc::C24))),
         Box::new(Adapter(Arc::new(c19::C19))),
         Box::new(Adapter(Arc::new(c21::C21))),
+        Box::new(Adapter(Arc::new(c11::C11))),
+        Box::new(Adapter(Arc::new(c20::C20))),
+        Box::new(Adapter(Arc::new(c29::C29))),
         Box::new(Adapter(Arc::new(c02::C02))),
+        Box::new(Adapter(Arc::new(c09::C09))),
         Box::new(Adapter(Arc::new(c10::C10))),
         Box::new(Adapter(Arc::new(c25::C25))),
         Box::new(Adapter(Arc::new(c26::C26))),
@@ -65,6 +74,7 @@ pub fn registry() -> Vec<Box<dyn DynProp>> {
         Box::new(Adapter(Arc::new(c35::C35))),
         Box::new(Adapter(Arc::new(c36::C36))),
         Box::new(Adapter(Arc::new(c37::C37))),
+        Box::new(Adapter(Arc::new(c38::C38))),
         Box::new(Adapter(Arc::new(c39::C39))),
         Box::new(Adapter(Arc::new(c40::C40))),
         Box::new(Adapter(Arc::new(c41::C41))),
